@@ -5,7 +5,10 @@ use serde_json::{json, Value};
 
 /// A radial whose unique tag travels in the collection timestamp.
 pub fn tagged(el: u8, az: u16, id: i64) -> Radial {
-    Radial::new(id, az, az as f32 * 0.5, 0.5, RadialStatus::IntermediateRadialData, el, el as f32 * 0.5,
+    // the status varies with the tag: grouping and merging must not depend on it
+    let status = [RadialStatus::IntermediateRadialData, RadialStatus::VolumeScanStart, RadialStatus::ElevationStart, RadialStatus::ElevationEnd,
+                  RadialStatus::VolumeScanEnd, RadialStatus::ElevationStartVCPFinal, RadialStatus::IntermediateRadialData][(id.unsigned_abs() % 7) as usize];
+    Radial::new(id, az, az as f32 * 0.5, 0.5, status, el, el as f32 * 0.5,
                 None, None, None, None, None, None, None)
 }
 
